@@ -123,11 +123,11 @@ class LineProc:
             self.p.kill()
 
 
-def batch(exe, lines, timeout=1800):
+def batch(exe, lines, timeout=1800, env=None):
     """Run a line-protocol program on many requests at once."""
     if not lines:
         return []
-    rc, out, err = sh([exe], input="\n".join(lines) + "\n", timeout=timeout)
+    rc, out, err = sh([exe], input="\n".join(lines) + "\n", timeout=timeout, env=env)
     res = out.split("\n")
     if res and res[-1] == "":
         res.pop()
@@ -417,41 +417,51 @@ def find_mate_positions(ctx, oracle, want, max_n, budget_games):
     return res
 
 
-# hand-made seeds for the rare kinds of mate in one: (fen, mating move, kind)
+# hand-made seeds for the kinds of mate in one that random play rarely produces; each is
+# validated by the exhaustive solver before use and also used colour-mirrored
 MATE1_SEEDS = [
-    ("6k1/5ppp/8/8/8/8/8/4R1K1 w - - 0 1", "e1e8", "plain"),
-    ("7k/P5pp/8/8/8/8/8/K7 w - - 0 1", "a7a8q", "promotion"),
-    ("5rk1/4Pppp/8/8/8/8/8/K7 w - - 0 1", "e7f8q", "promotion"),
-    ("k7/2P5/1K6/8/8/8/8/8 w - - 0 1", "c7c8q", "promotion"),
-    ("7k/5Pp1/6Kp/8/8/8/8/8 w - - 0 1", "f7f8q", "promotion"),
-    ("8/8/8/8/8/5k2/4p3/4K1N1 b - - 0 1", None, "any"),
-    ("r3k3/8/8/8/8/8/3PPP2/3RKR2 b q - 0 1", None, "castling?"),
-    ("3rkr2/3ppp2/8/8/8/8/8/R3K3 w Q - 0 1", None, "castling?"),
-    ("5rkr/5ppp/8/8/8/8/8/4K2R w K - 0 1", None, "castling?"),
-    ("8/8/8/8/k1pP4/p7/P1K5/1Q6 b - d3 0 1", None, "ep?"),
-    ("7k/6pp/8/4Pp2/8/8/B7/K5R1 w - f6 0 1", None, "ep?"),
-    ("6rk/6pp/8/8/8/8/1B6/K5R1 w - - 0 1", None, "any"),
-    ("k7/pp6/8/8/8/8/6B1/K2R4 w - - 0 1", None, "any"),
-    ("4k3/8/4K3/8/8/8/8/7R w - - 0 1", "h1h8", "plain"),
-    ("r1bqkb1r/pppp1ppp/2n2n2/4p2Q/2B1P3/8/PPPP1PPP/RNB1K1NR w KQkq - 4 4", "h5f7", "plain"),
-    ("rnb1kbnr/pppp1ppp/8/4p3/6Pq/5P2/PPPPP2P/RNBQKBNR w KQkq - 1 3", None, "mated"),
-    ("6k1/5p1p/5BpQ/8/8/8/8/6K1 w - - 0 1", "h6g7", "plain"),
-    ("5k2/R7/5K2/8/8/8/8/8 w - - 0 1", None, "any"),
-    ("1k6/1P6/1K6/8/8/8/8/7R w - - 0 1", "h1h8", "plain"),
-    ("kr6/pp6/8/1N6/8/8/8/K7 w - - 0 1", None, "any"),        # smothered: Nc7#
-    ("6k1/3R4/6K1/8/8/8/8/8 w - - 0 1", "d7d8", "plain"),
-    ("3k4/3P4/3K4/8/8/8/8/6R1 w - - 0 1", "g1g8", "plain"),
-    ("k7/8/1K6/8/8/8/8/4Q3 w - - 0 1", None, "any"),
-    ("7k/8/5N1K/8/8/8/8/6R1 w - - 0 1", "g1g8", "plain"),
-    ("4R3/5ppk/7p/8/8/8/8/B6K w - - 0 1", None, "any"),
-    ("r4rk1/ppp2p1p/6p1/8/8/1B5Q/PPP5/1K5R w - - 0 1", None, "any"),
-    ("2kr4/ppp5/8/8/8/8/5PPP/4R1K1 b - - 0 1", "d8d1", "plain"),
-    ("8/8/8/8/8/6k1/4q3/7K b - - 0 1", None, "any"),
-    ("6k1/8/6K1/8/8/8/8/R7 w - - 0 1", "a1a8", "plain"),
-    ("2k5/2P5/2K5/8/8/8/7p/8 b - - 0 1", None, "any"),
-    ("5k2/8/5K2/8/8/8/4p3/7R b - - 0 1", None, "any"),       # underpromotion chances
-    ("4k3/8/8/8/8/8/8/R3K2R w KQ - 0 1", None, "any"),
+    "6k1/5ppp/8/8/8/8/8/4R1K1 w - - 0 1",                      # back rank
+    "6k1/5ppp/8/8/8/8/8/4R1K1 w - - 99 80",                    # ... delivered on the 100th half move
+    "7k/P5pp/8/8/8/8/8/K7 w - - 0 1",                          # promotion
+    "5rk1/4Pppp/8/8/8/8/8/K7 w - - 0 1",                       # capture-promotion
+    "k7/2P5/1K6/8/8/8/8/8 w - - 0 1",                          # promotion (queen or rook)
+    "7k/5Pp1/6Kp/8/8/8/8/8 w - - 0 1",                         # promotion
+    "6nb/5Ppk/8/6K1/8/8/8/8 w - - 0 1",                        # under-promotion to a knight is the only mate
+    "4rkr1/4p1p1/8/8/8/8/8/4K2R w K - 0 1",                    # O-O mate (also Rf1)
+    "2rkr3/2p1p3/8/8/8/8/8/R3K3 w Q - 0 1",                    # O-O-O mate (also Rd1)
+    "3nrb2/4kp2/8/2PpPPP1/B7/8/8/6K1 w - d6 0 1",              # en passant capture mates
+    "3qkb2/5p2/8/8/4B3/8/8/4R1K1 w - - 0 1",                   # double check Bc6
+    "k7/pp6/8/8/8/8/6B1/K2R4 w - - 0 1",
+    "6rk/6pp/8/8/8/8/1B6/K5R1 w - - 0 1",
+    "4k3/8/4K3/8/8/8/8/7R w - - 0 1",
+    "r1bqkb1r/pppp1ppp/2n2n2/4p2Q/2B1P3/8/PPPP1PPP/RNB1K1NR w KQkq - 4 4",   # scholar's mate
+    "rnbqkbnr/pppp1ppp/8/4p3/6P1/5P2/PPPPP2P/RNBQKBNR b KQkq - 0 2",       # fool's mate
+    "6k1/5p1p/5BpQ/8/8/8/8/6K1 w - - 0 1",
+    "5k2/R7/5K2/8/8/8/8/8 w - - 0 1",
+    "1k6/1P6/1K6/8/8/8/8/7R w - - 0 1",
+    "kr6/pp6/8/1N6/8/8/8/K7 w - - 0 1",                        # smothered
+    "6k1/3R4/6K1/8/8/8/8/8 w - - 0 1",
+    "3k4/3P4/3K4/8/8/8/8/6R1 w - - 0 1",
+    "k7/8/1K6/8/8/8/8/4Q3 w - - 0 1",
+    "7k/8/5N1K/8/8/8/8/6R1 w - - 0 1",
+    "4R3/5ppk/7p/8/8/8/8/B6K w - - 0 1",
+    "r4rk1/ppp2p1p/6p1/8/8/1B5Q/PPP5/1K5R w - - 0 1",
+    "2kr4/ppp5/8/8/8/8/5PPP/4R1K1 b - - 0 1",
+    "8/8/8/8/8/6k1/4q3/7K b - - 0 1",
+    "6k1/8/6K1/8/8/8/8/R7 w - - 0 1",
+    "4k3/8/8/8/8/8/8/R3K2R w KQ - 0 1",
 ]
+
+
+def mirror_fen(fen):
+    """swap colours and flip the board top to bottom"""
+    p = fen.split()
+    rows = p[0].split("/")[::-1]
+    rows = ["".join(c.lower() if c.isupper() else c.upper() for c in r) for r in rows]
+    stm = "b" if p[1] == "w" else "w"
+    cas = "".join(sorted((c.lower() if c.isupper() else c.upper() for c in p[2]), key="KQkq".index)) if p[2] != "-" else "-"
+    ep = p[3] if p[3] == "-" else p[3][0] + str(9 - int(p[3][1]))
+    return " ".join(["/".join(rows), stm, cas, ep] + p[4:])
 
 
 def decorate(rng, oracle, fen, tries=6):
@@ -483,17 +493,18 @@ def mate_in_one_set(ctx, oracle, n_target):
     play; classified by the kinds of their mating moves (python, independent of the engine)."""
     rng = ctx.rng
     out = []
-    for fen, _, _ in MATE1_SEEDS:
-        a = oracle.annotate(fen)
-        if a is None:
-            continue
-        d, ms = oracle.mate_in(fen, 1)
-        if d == 1:
-            out.append(fen)
-            if len(out) < n_target:
-                f2 = decorate(rng, oracle, fen)
-                if f2 != fen:
-                    out.append(f2)
+    for seed in MATE1_SEEDS:
+        for fen in (seed, mirror_fen(seed)):
+            a = oracle.annotate(fen)
+            if a is None:
+                continue
+            d, ms = oracle.mate_in(fen, 1)
+            if d == 1:
+                out.append(fen)
+                if len(out) < n_target:
+                    f2 = decorate(rng, oracle, fen)
+                    if f2 != fen:
+                        out.append(f2)
     return out
 
 
@@ -643,22 +654,35 @@ class TraceRec:
 
 
 def parse_trace(path):
-    """-> list of searches; each = dict(root_fen, nroot, events=[('N', rec) | ('R', tuple) | ('D', ...)], evals=[(min,max)])"""
+    """-> (searches, evals); searches = list of dict(root_fen, nroot, events=[('N', rec) | ('R', tuple) | ('D', ...)]).
+    Node ids restart at 1 for every Search object (record O); they are rebased here so that an
+    id denotes one node of the whole file."""
     searches = []
     cur = None
     evals = []
+    base = 0
+    maxid = 0
     if not os.path.exists(path):
         return searches, evals
+
+    def gid(x):
+        return x + base if x else 0
     for line in open(path):
         line = line.rstrip("\n")
         if not line:
             continue
         tag = line[0]
-        if tag == "P":
+        if tag == "O":
+            base = maxid
+            cur = dict(root_fen=None, thread=0, nroot=0, maxdepth=0, events=[])
+            searches.append(cur)
+        elif tag == "P":
             head, fen = line.split(" | ", 1)
             t = head.split()
-            cur = dict(root_fen=fen, thread=int(t[1]), nroot=int(t[2]), maxdepth=int(t[3]), events=[])
-            searches.append(cur)
+            if cur is None or cur["root_fen"] is not None or cur["events"]:
+                cur = dict(root_fen=None, events=[])
+                searches.append(cur)
+            cur.update(root_fen=fen, thread=int(t[1]), nroot=int(t[2]), maxdepth=int(t[3]))
         elif tag == "E":
             t = line.split()
             evals.append((int(t[1]), int(t[2])))
@@ -679,13 +703,19 @@ def parse_trace(path):
             nf = int(t[24])
             r.finals = {}
             for i in range(nf):
-                r.finals[int(t[25 + 2 * i])] = int(t[26 + 2 * i])
+                r.finals[int(t[25 + 2 * i])] = gid(int(t[26 + 2 * i]))
+            r.id = gid(r.id)
+            r.parent = gid(r.parent)
+            r.qid = gid(r.qid)
+            maxid = max([maxid, r.id, r.parent, r.qid] + list(r.finals.values()))
             r.fen = fen
             r.ok = False
             cur["events"].append(("N", r))
         elif tag == "R":
-            t = line.split()
-            cur["events"].append(("R", tuple(int(x) for x in t[1:9])))
+            t = [int(x) for x in line.split()[1:9]]
+            t[7] = gid(t[7])
+            maxid = max(maxid, t[7])
+            cur["events"].append(("R", tuple(t)))
         elif tag == "D":
             t = line.split()
             cur["events"].append(("D", (int(t[1]), int(t[2]))))
@@ -699,8 +729,12 @@ SITE_NAMES = {1: "mate-distance-pruning", 2: "draw50-but-mated", 3: "draw50", 4:
               20: "q-standpat", 21: "q-cutoff", 22: "q-end", 0: "untagged"}
 
 
-def justify_trace(ctx, ml_exe, harness_exe, path, stats):
-    """Check every mate-score node of one engine process's trace.  Returns a list of break dicts."""
+def justify_trace(ml_exe, harness_exe, path):
+    """Check every mate-score node of one engine process's trace.
+    Returns (breaks, stats, number of checker verdicts, keys of distinct justified nodes)."""
+    stats = {}
+    nev = 0
+    keys = set()
     searches, evals = parse_trace(path)
     breaks = []
     for lo, hi in evals:
@@ -711,7 +745,8 @@ def justify_trace(ctx, ml_exe, harness_exe, path, stats):
     # ---- oracle annotation of all positions of mate-score nodes and the roots (batch)
     fens = {}
     for s in searches:
-        fens[s["root_fen"]] = None
+        if s["root_fen"]:
+            fens[s["root_fen"]] = None
         for tag, ev in s["events"]:
             if tag == "N" and ev.fen is not None:
                 fens[ev.fen] = None
@@ -724,7 +759,7 @@ def justify_trace(ctx, ml_exe, harness_exe, path, stats):
     recs = {}
     key2pos = {}
     for si, s in enumerate(searches):
-        root_ann = fens[s["root_fen"]]
+        root_ann = fens.get(s["root_fen"]) if s["root_fen"] else None
         root_moves = {c: f for c, f in root_ann[1]} if root_ann else {}
         last_r = {}     # root move code -> (depth, alpha, beta, score, child id)
         maxdepth_seen = 0
@@ -823,7 +858,7 @@ def justify_trace(ctx, ml_exe, harness_exe, path, stats):
         kind = meta[0]
         if kind == "N":
             r = meta[1]
-            ctx.evaluated()
+            nev += 1
             stats["mate_nodes_checked"] = stats.get("mate_nodes_checked", 0) + 1
             if verdict != "OK":
                 r.ok = False
@@ -831,20 +866,104 @@ def justify_trace(ctx, ml_exe, harness_exe, path, stats):
                                    node=r.id, fen=r.fen, ply=r.ply, depth=r.depth, alpha=r.alpha, beta=r.beta, score=r.score,
                                    fn="quiesce" if r.fn else "negaScout", request=l, root_fen=searches[meta[2]]["root_fen"]))
             else:
-                ctx.nontrivial("n:%s:%d:%d:%d" % (fen4(r.fen), r.ply, r.score, r.site))
+                keys.add("n:%s:%d:%d:%d" % (fen4(r.fen), r.ply, r.score, r.site))
         elif kind == "RW":
-            ctx.evaluated()
+            nev += 1
             stats["root_win_claims_checked"] = stats.get("root_win_claims_checked", 0) + 1
             if verdict != "OK":
                 breaks.append(dict(kind="root", what="root win score not justified", request=l, fen=searches[meta[2]]["root_fen"]))
         elif kind == "RL":
-            ctx.evaluated()
+            nev += 1
             stats["root_loss_claims_checked"] = stats.get("root_loss_claims_checked", 0) + 1
             if verdict != "OK":
                 breaks.append(dict(kind="root", what="final root lose score not justified", request=l, fen=meta[1][1]))
-    return breaks
+    return breaks, stats, nev, keys
 
 
+
+
+# =====================================================================================
+# directed node searches (harness request D): negaScout called with chosen windows / plies
+# =====================================================================================
+NULL_THREAT_SEEDS = [
+    # side to move has an unstoppable mate threat, material and pawns for the null move
+    "6k1/p4p1p/5BpQ/8/8/8/P7/6K1 w - - 0 1",
+    "6k1/p4p1p/5BpQ/8/8/8/P6P/6K1 w - - 0 1",
+    "1k6/1p1R4/1K6/p7/P7/8/8/8 w - - 0 1",
+    "7k/5Q1p/7K/p7/P7/8/8/8 w - - 0 1",
+    "6k1/5ppp/8/8/8/8/r4PPP/1q4K1 b - - 0 1",
+]
+
+
+def directed_requests(ctx, positions):
+    """positions: list of (fen, D or None).  Returns list of request lines."""
+    rng = ctx.rng
+    reqs = []
+    windows = [(-MATE0, MATE0), (100, 101), (-101, -100), (0, 1), (-1, 0), (MATE0 - 20, MATE0 - 19), (-(MATE0 - 20), -(MATE0 - 21)),
+               (HALF - 1, HALF + 1), (-HALF - 1, -HALF + 1), (-MATE0, -MATE0 + 40), (MATE0 - 40, MATE0), (300, 600), (-600, -300)]
+    for fen, d in positions:
+        for _ in range(ctx.scale(6, 30)):
+            ply = rng.choice([1, 1, 2, 2, 3, 5, 8, 30, 100, 150])
+            depth = rng.choice([0, 1, 2, 3, 4, 5, 5, 6, 7])
+            r = rng.random()
+            if d and r < 0.4:
+                # windows around the true score of the position at that ply
+                true = MATE0 - ply - (2 * d - 1) - 1
+                a = true + rng.choice([-2, -1, 0, 1])
+                w = (a, a + 1) if rng.random() < 0.7 else (a - rng.randint(0, 30), a + 1 + rng.randint(0, 30))
+            else:
+                w = rng.choice(windows)
+            if w[0] >= w[1]:
+                continue
+            reqs.append("D %s | %d %d %d %d" % (fen, w[0], w[1], ply, depth))
+        if rng.random() < 0.1:
+            reqs.append("T")
+    for seed in NULL_THREAT_SEEDS:
+        for fen in (seed, mirror_fen(seed)):
+            for depth in (5, 6, 7):
+                for w in ((100, 101), (-50, -49), (700, 701)):
+                    reqs.append("D %s | %d %d %d %d" % (fen, w[0], w[1], 2, depth))
+    return reqs
+
+
+def check_directed(oracle, reqs, answers, max_n, stats):
+    """node-level finder: the score returned for a window claims a bound; test mate claims
+    against the exhaustive solver."""
+    fails = []
+    for q, ans in zip(reqs, answers):
+        if not q.startswith("D ") or ans.startswith("ERR"):
+            continue
+        fen, rest = q[2:].split(" | ")
+        a, b, ply, depth = [int(x) for x in rest.split()]
+        s = int(ans)
+        stats["directed_nodes"] = stats.get("directed_nodes", 0) + 1
+        if s > a and s > HALF:
+            k = MATE0 - s - ply - 1
+            n = (k + 1) // 2
+            stats["directed_win_claims"] = stats.get("directed_win_claims", 0) + 1
+            if k < 1:
+                fails.append(dict(kind="node returns an impossible win score", fen=fen, request=q, claim="score %d at ply %d" % (s, ply),
+                                  expected="a win score at ply p is at most MATE0-p-2"))
+            elif n <= max_n:
+                stats["directed_win_claims_solved"] = stats.get("directed_win_claims_solved", 0) + 1
+                d, _ = oracle.mate_in(fen, n)
+                if not d:
+                    fails.append(dict(kind="node returns a false win score", fen=fen, request=q, claim="score %d at ply %d = mate in %d" % (s, ply, n),
+                                      expected="no forced mate within %d moves (exhaustive solver)" % n))
+        if s < b and s < -HALF:
+            k = MATE0 + s - ply - 1
+            n = k // 2
+            stats["directed_lose_claims"] = stats.get("directed_lose_claims", 0) + 1
+            if k < 0:
+                fails.append(dict(kind="node returns an impossible lose score", fen=fen, request=q, claim="score %d at ply %d" % (s, ply),
+                                  expected="a lose score at ply p is at least -(MATE0-p-1)"))
+            elif n <= max_n:
+                stats["directed_lose_claims_solved"] = stats.get("directed_lose_claims_solved", 0) + 1
+                kk = oracle.mated_in(fen, n)
+                if kk is None or kk < 0:
+                    fails.append(dict(kind="node returns a false lose score", fen=fen, request=q, claim="score %d at ply %d = mated in %d" % (s, ply, n),
+                                      expected="not mated within %d moves against every defence (exhaustive solver)" % n))
+    return fails
 
 
 # =====================================================================================
@@ -955,9 +1074,9 @@ def run_session(sess):
 def plan_sessions(ctx, oracle, engines, harness_exe, traced):
     rng = ctx.rng
     q = ctx.quick
-    endg = [random_endgame(rng, oracle) for _ in range(ctx.scale(14, 120))]
-    mates = find_mate_positions(ctx, oracle, ctx.scale(24, 300), ctx.scale(2, 3), ctx.scale(60, 2000))
-    m1 = mate_in_one_set(ctx, oracle, ctx.scale(40, 200))
+    endg = [random_endgame(rng, oracle) for _ in range(ctx.scale(24, 200))]
+    mates = find_mate_positions(ctx, oracle, ctx.scale(45, 500), ctx.scale(2, 3), ctx.scale(250, 4000))
+    m1 = mate_in_one_set(ctx, oracle, ctx.scale(90, 400))
     # harvest more mate-in-one positions of rare kinds from the random-play set
     kinds_seen = {}
     m1pos = []
@@ -971,17 +1090,17 @@ def plan_sessions(ctx, oracle, engines, harness_exe, traced):
     ctx.notes["mate_in_one_kinds"] = kinds_seen
     mated = []
     for fen, d, ms in mates:
-        if d >= 2 and len(mated) < ctx.scale(8, 80):
+        if d >= 2 and len(mated) < ctx.scale(16, 120):
             a = oracle.annotate(fen)
             mp = uci_to_code_map(a[1])
             mated.append(mp[ms[0]][1])        # after the mating side's first move: the other side is mated in d-1
     jobs = []
     for fen in endg:
-        jobs.append((fen, rng.choice([5, 6, 7, 8] if q else [6, 8, 10, 12, 14]), rng.random() < 0.3, "endgame"))
+        jobs.append((fen, rng.choice([6, 7, 8, 8] if q else [6, 8, 10, 12, 14]), rng.random() < 0.3, "endgame"))
     for fen, d, ms in mates:
-        jobs.append((fen, rng.choice([2, 3, 4, 5, 6, 7] if q else [3, 5, 7, 9, 11]), rng.random() < 0.3, "mate%d" % d))
+        jobs.append((fen, rng.choice([3, 4, 5, 6, 7, 8] if q else [3, 5, 7, 9, 11]), rng.random() < 0.3, "mate%d" % d))
     for fen in mated:
-        jobs.append((fen, rng.choice([3, 4, 5, 6] if q else [4, 6, 8, 10]), rng.random() < 0.3, "mated"))
+        jobs.append((fen, rng.choice([4, 5, 6, 7, 8] if q else [4, 6, 8, 10]), rng.random() < 0.3, "mated"))
     m1jobs = []
     for fen, kinds in m1pos:
         for depth in ([1, 2, 3] if q else [1, 2, 3, 4, 6, 8, 14]):
@@ -1027,7 +1146,8 @@ def plan_sessions(ctx, oracle, engines, harness_exe, traced):
         for s in sessions:
             if not s.get("mt"):
                 s["trace"] = os.path.join(d, "trace-%d.txt" % s["idx"])
-    return sessions
+    dpos = [(f, d) for f, d, _ in mates] + [(f, None) for f in endg[:ctx.scale(8, 60)]] + [(f, None) for f in mated]
+    return sessions, dpos
 
 
 # =====================================================================================
@@ -1080,17 +1200,43 @@ def run(ctx):
     # (3b)+(5) searches
     oracle = Oracle(harness_exe)
     try:
-        sessions = plan_sessions(ctx, oracle, engines, harness_exe, traced)
+        sessions, dpos = plan_sessions(ctx, oracle, engines, harness_exe, traced)
     finally:
         oracle.close()
+    dreqs = directed_requests(ctx, dpos)
     ctx.log("planned %d sessions, %d searches" % (len(sessions), sum(len(s['jobs']) for s in sessions)))
     t0 = time.time()
     with ThreadPoolExecutor(max_workers=min(NCPU, 12)) as ex:
         results = list(ex.map(run_session, sessions))
     ctx.notes["search_wall_s"] = round(time.time() - t0, 1)
     ctx.log("searches done")
+    # directed node searches (harness): chunks, each one process with its own table and trace
+    nchunk = ctx.scale(6, 24)
+    chunks = [dreqs[i::nchunk] for i in range(nchunk)]
+    tdir = os.path.join("/tmp", "c04-%d" % os.getpid())
+    os.makedirs(tdir, exist_ok=True)
+    dtraces = [os.path.join(tdir, "dtrace-%d.txt" % i) if traced else None for i in range(nchunk)]
+
+    def run_chunk(i):
+        env = {"TEXEL_VERIF_TRACE": dtraces[i]} if dtraces[i] else {"TEXEL_VERIF_TRACE": ""}
+        ans = batch(harness_exe, chunks[i], timeout=1800, env=env)
+        orc = Oracle(harness_exe)
+        st = {}
+        try:
+            f = check_directed(orc, chunks[i], ans, ctx.scale(2, 3), st)
+        finally:
+            orc.close()
+        return f, st
+    with ThreadPoolExecutor(max_workers=min(NCPU, 12)) as ex:
+        dres = list(ex.map(run_chunk, range(nchunk)))
+    ctx.log("directed node searches done: %d requests" % len(dreqs))
     fstats = {}
     finder_fails = []
+    for f, st in dres:
+        finder_fails += f
+        for k, v in st.items():
+            fstats[k] = fstats.get(k, 0) + v
+    ctx.evaluated(fstats.get("directed_nodes", 0))
     nsearch = 0
     for s, (out, fails, stats) in zip(sessions, results):
         nsearch += len(out)
@@ -1115,24 +1261,42 @@ def run(ctx):
     if traced:
         t1 = time.time()
         with ThreadPoolExecutor(max_workers=min(NCPU, 12)) as ex:
-            tb = list(ex.map(lambda s: justify_trace(ctx, ml_exe, harness_exe, s["trace"], tstats) if s.get("trace") else [], sessions))
-        for s, b in zip(sessions, tb):
+            units = list(sessions) + [dict(trace=p, options={"directed": True}, net="material") for p in dtraces]
+            tb = list(ex.map(lambda s: justify_trace(ml_exe, harness_exe, s["trace"]) if s.get("trace") else ([], {}, 0, set()), units))
+        for s, (b, st, nev, keys) in zip(units, tb):
             for x in b:
                 x["options"] = s["options"]
                 x["net"] = s["net"]
             breaks += b
+            ctx.evaluated(nev)
+            for k in keys:
+                ctx.nontrivial(k)
+            for k, v in st.items():
+                if k in ("eval_min",):
+                    tstats[k] = min(tstats.get(k, 0), v)
+                elif k in ("eval_max",):
+                    tstats[k] = max(tstats.get(k, 0), v)
+                else:
+                    tstats[k] = tstats.get(k, 0) + v
         ctx.log("certificates: %s" % json.dumps(tstats, sort_keys=True))
         ctx.notes["certificate_wall_s"] = round(time.time() - t1, 1)
-        ctx.traces_validated = sum(1 for s in sessions if s.get("trace"))
+        ctx.traces_validated = sum(1 for s in units if s.get("trace"))
         for k, v in tstats.items():
             ctx.count("trace_" + k, v)
-        for s in sessions:
+        for s in units:
             if s.get("trace") and os.path.exists(s["trace"]) and not os.environ.get("C04_KEEP_TRACES"):
                 os.remove(s["trace"])
+        if not os.environ.get("C04_KEEP_TRACES"):
+            try:
+                os.rmdir(tdir)
+            except OSError:
+                pass
         if tstats.get("mate_nodes_checked", 0) == 0:
             breaks.append(dict(kind="trace", what="hook present but no mate-score node was logged"))
     # verdict
-    for f in finder_fails:
+    if len(finder_fails) > 5:
+        ctx.notes["finder_failures_total"] = len(finder_fails)
+    for f in finder_fails[:5]:
         key = "%s|%s|%s" % (fen4(f["fen"]), f["kind"].replace(" ", "_"), f.get("claim", f.get("move", "")).replace(" ", "_"))
         ctx.violation("%s: %s (%s)" % (f["kind"], f.get("claim", f.get("move", "")), f["expected"]),
                       {"failing_input": f, "broken": breaks[:5]}, key=key)
